@@ -269,7 +269,7 @@ fn gen_attrs(ch: &mut Ch, thorough: bool) -> Option<Case> {
 
 /// Debug / Default attribute flavours
 fn gen_misc(ch: &mut Ch, _thorough: bool) -> Option<Case> {
-    let cases: [(&[&str], &str); 48] = [
+    let cases: [(&[&str], &str); 50] = [
         (&["Debug"], "pub struct X<T>(#[debug(ignore)] pub T, pub Option<T>);"),
         (&["Debug"], "pub struct X<T> { #[debug(transparent)] pub a: Vec<T>, pub b: u8 }"),
         (&["Debug"], "pub enum X<'a, T> { A(#[debug(ignore)] &'a T), B { #[debug(transparent)] x: T }, C }"),
@@ -320,6 +320,9 @@ fn gen_misc(ch: &mut Ch, _thorough: bool) -> Option<Case> {
         (&["PartialEq"], "pub struct X(#[partial_eq(key = { let ($) = 1u8; 0u8 })] pub u8);"),
         (&["PartialOrd", "PartialEq"], "pub enum X { A(#[partial_ord(key = (|$| 0u8)(1u8))] u8), B }"),
         (&["Hash"], "pub struct X { #[hash(key = ::core::mem::size_of::<$>())] pub x: u8 }"),
+        // a per-trait bound next to a list-wide bound, both without `..`: each trait's body needs ITS bound
+        (&["Clone(bound(T: ::core::clone::Clone))", "Default", "bound(T: ::core::default::Default)"], "pub struct X<T>(pub T);"),
+        (&["Debug", "Neg(bound(T: ::core::ops::Neg<Output = T>, for<'x> &'x T: ::core::ops::Neg<Output = T>))", "bound(T: ::core::fmt::Debug)"], "pub struct X<T>(pub T);"),
         // a deprecated item / field / variant: deriving for it is no use the author wants to be warned about (the
         // standard derives are exempt from the lint)
         (&["Clone", "Debug", "PartialEq", "Eq", "Default", "Hash"], "#[deprecated] pub struct X(pub u8);"),
